@@ -552,7 +552,16 @@ fn run_fixed<D: scpi::Device>(cap: usize, root: &scpi::tree::Node<D>, msg: &[u8]
 fn run_history<Q: QueueBackend + 'static>(rng: &mut Rng, ctx: &mut Ctx, focus: Focus) {
     // the documented flat tree, or the common commands kept in an optional branch below the root (they "resolve at the root" all the same)
     let nested = rng.chance(1, 4);
-    let tree = if nested { &<StdDev<Q> as HasTree>::TREE_NESTED } else { &<StdDev<Q> as HasTree>::TREE };
+    let typed = !nested && rng.chance(1, 4);
+    let tree = if nested {
+        &<StdDev<Q> as HasTree>::TREE_NESTED
+    } else if typed {
+        // the STATus subsystem assembled from the documented per-register command types instead of the macro
+        ctx.count("histories.status-tree-assembled-from-the-command-types");
+        &<StdDev<Q> as HasTree>::TREE_TYPED
+    } else {
+        &<StdDev<Q> as HasTree>::TREE
+    };
     if nested {
         ctx.count("histories.common-commands-in-an-optional-branch");
     }
@@ -708,6 +717,29 @@ fn run_history<Q: QueueBackend + 'static>(rng: &mut Rng, ctx: &mut Ctx, focus: F
         // run: growable response buffer, or now and then the fixed-capacity one sized so that everything fits exactly,
         // or so that only the terminator does not (then every unit has run and the message fails with -225, which is
         // queued and flagged like any other failure)
+        // a single query whose answer does not fit at all: the handler's own write fails. That the message fails with -225 and
+        // that -225 is queued and flagged is required; what a destructive read has consumed by then is not specified (the
+        // model takes over the device's queue / ESR / event registers afterwards)
+        let tiny: Option<usize> = if want_fail.is_none() && alts.is_empty() && units.len() == 1 && want_resp.len() >= 3 && want_resp.len() <= 49 && rng.chance(1, 12) { Some(rng.usize(want_resp.len() - 1)) } else { None };
+        if let Some(cap) = tiny {
+            ctx.count("messages.fixed-capacity-buffer.answer-does-not-fit");
+            let (r, _resp) = run_fixed(cap, tree, &msg, &mut dev, &mut c);
+            trace.push(format!("{} [capacity {}]", show(&msg), cap));
+            let q: Vec<QItem> = dev.errors.snapshot().iter().map(item_of).collect();
+            let queued = q.last().map_or(false, |i| i.code == -225 || i.code == -350);
+            if !matches!(&r, Err(e) if e.get_code() == -225) || !queued || dev.esr & 0x10 == 0 {
+                ctx.violation(&format!("{}:answer-does-not-fit-but-not-reported-queued-and-flagged:{}", p, unit_name(&units[0])), jobj(&[("queue_backend", jstr(Q::NAME)), ("message", jbytes(&msg)), ("capacity", cap.to_string()), ("result", jstr(&format!("{:?}", r.as_ref().map_err(|e| e.get_code())))), ("queue_codes", jstr(&format!("{:?}", q.iter().map(|i| i.code).collect::<Vec<_>>()))), ("esr", dev.esr.to_string())]));
+                return;
+            }
+            m.queue.q.clear();
+            for it in q {
+                m.queue.q.push_back(it);
+            }
+            m.esr = dev.esr;
+            m.oper.event = dev.operation.event;
+            m.ques.event = dev.questionable.event;
+            continue;
+        }
         let fixed: Option<usize> = if want_fail.is_none() && alts.is_empty() && !want_resp.is_empty() && want_resp.len() <= 49 && rng.chance(1, 6) { Some(if rng.chance(1, 3) { want_resp.len() } else { want_resp.len() - 1 }) } else { None };
         // now and then the response buffer still holds an earlier, unread response (one output buffer per connection,
         // drained when the controller reads): what the library writes behind it is not judged here, but the message's
